@@ -10,6 +10,7 @@ import GormModel.Model.Serializer
 import GormModel.Gen.BackfillFacts
 import GormModel.Gen.SchemaDeclFacts
 import GormModel.Gen.QueryDestKeyFacts
+import GormModel.Model.DestKey
 namespace Gorm
 open Gorm.Scan
 
@@ -930,15 +931,10 @@ end MapsAndSerializers
 `First/Take/Last/Find(&T{key…})`: when the destination is a struct of the model's type, BuildQuerySQL turns the key values
 it carries into conditions.  Transcription: one equality per member of `Schema.PrimaryFields` (ALL of them, in that order)
 whose value is non-zero (`0` stands for the zero value), ANDed in one `clause.Where`; nothing when every part is zero.
-The regenerated facts `Gen.destKey*` (extract/gen_c03_r6.go) pin the block to this shape; the `keyed` e2e suite judges the
-behaviour on composite keys whose members are shared by several rows. -/
+The model is Model/DestKey.lean (`destKeyConds`, `rowMatches`), compared with the WHERE clause of real DryRun statements by
+the `destkey` correspondence suite; the regenerated facts `Gen.destKey*` (extract/gen_c03_r6.go) pin the block to this
+shape; the `keyed` e2e suite judges the behaviour on composite keys whose members are shared by several rows. -/
 section DestKey
-
-/-- the conditions the destination-key block adds for a destination carrying `key` (column, value) -/
-def destKeyConds (key : List (String × Nat)) : List (String × Nat) := key.filter (fun p => p.2 != 0)
-
-/-- a row (column ↦ value) satisfies the ANDed conditions -/
-def rowMatches (row : String → Nat) (conds : List (String × Nat)) : Bool := conds.all (fun c => row c.1 == c.2)
 
 /-- every NON-ZERO part the destination carries is demanded of the row that is loaded (zero parts are ignored) -/
 theorem C03_dest_key_nonzero_parts (key : List (String × Nat)) (row : String → Nat)
